@@ -7,6 +7,7 @@ import (
 	"context"
 	"fmt"
 	"sort"
+	"strings"
 	"time"
 
 	"github.com/Comcast/sheens/core"
@@ -97,6 +98,43 @@ func (s *snap) compare(in *inputs, spec *core.Spec) (cls, why string) {
 		return "spec-modified", "the specification changed: " + d
 	}
 	return "", ""
+}
+
+// holdsMap: where below x (x itself excluded) is the map with the given identity?  "" = nowhere.
+func holdsMap(x interface{}, id uintptr, depth int) string {
+	if depth > 40 {
+		return ""
+	}
+	each := func(k string, v interface{}) string {
+		if fw.MapID(v) == id {
+			return k
+		}
+		if p := holdsMap(v, id, depth+1); p != "" {
+			return k + "." + p
+		}
+		return ""
+	}
+	switch t := x.(type) {
+	case map[string]interface{}:
+		for k, v := range t {
+			if p := each(k, v); p != "" {
+				return p
+			}
+		}
+	case match.Bindings:
+		for k, v := range t {
+			if p := each(k, v); p != "" {
+				return p
+			}
+		}
+	case []interface{}:
+		for i, v := range t {
+			if p := each(fmt.Sprint(i), v); p != "" {
+				return p
+			}
+		}
+	}
+	return ""
 }
 
 func inputMapIDs(in *inputs) map[uintptr]string {
@@ -224,9 +262,25 @@ func judge(rec *fw.Rec, cd *caseDesc, spec *core.Spec, deadline bool) bool {
 		rec.Violation("C06:"+cls+":"+cd.Op, why, cd)
 		return false
 	}
+	givenBs := fw.MapID(in.st.Bs)
 	for _, m := range maps {
 		if what, shared := ids[fw.MapID(m)]; shared {
 			rec.Violation("C06:result-shares-input-map:"+cd.Op, "a returned state's bindings map is the same object as "+what, cd)
+			return false
+		}
+		// ... nor may the given bindings map sit anywhere inside a returned state (say as
+		// "lastBindings"): editing the result would then edit the caller's state
+		// (Only what the engine itself puts there is judged: a bindings-branch pattern that
+		// is a bare variable legitimately binds the whole bindings value it is matched against.)
+		var bookkeeping interface{}
+		switch t := m.(type) {
+		case match.Bindings:
+			bookkeeping = map[string]interface{}{"lastBindings": t["lastBindings"]}
+		case map[string]interface{}:
+			bookkeeping = map[string]interface{}{"lastBindings": t["lastBindings"]}
+		}
+		if at := holdsMap(bookkeeping, givenBs, 0); givenBs != 0 && at != "" && !strings.Contains(at, "?") {
+			rec.Violation("C06:result-holds-input-bindings-map:"+cd.Op, "the given state's bindings map itself (not a copy) is stored inside a returned state's bindings, at "+at, cd)
 			return false
 		}
 	}
